@@ -553,6 +553,13 @@ class C18(Prop):
             elif v:
                 bads.append(dict(what=v, input=c, finding=None))
         bads += getattr(self, "_req_viol", [])
+        # retargeting combined with the deletion of the old symbol in one context
+        from harness import ctxlevel
+        rndc = C.rng("c18-ctx" + ("-boost" if boosted else ""))
+        for _ in range(1500 if boosted else 300):
+            w = ctxlevel.retarget_and_delete(rndc)
+            if w:
+                bads.append(dict(what=w, input="ctxlevel.retarget_and_delete()", finding=None))
         bads = [b for b in bads if b["finding"] is None][:10] + [b for b in bads if b["finding"]][:2]
         return dict(evaluations=len(runs), violations=bads, samples=[{"oracle": "operands, addends, untouched attributes and the exact edge set after the call"}])
 
